@@ -252,6 +252,12 @@ class World:
         # nargs
         self.nargs = z3.RecFunction('nargs', Cat, z3.IntSort())
         z3.RecAddDefinition(self.nargs, [c], z3.If(self.recog('Atom')(c), 0, 1 + self.nargs(L(c))))
+        # wf: what the rule functions need in order not to raise: non-empty atom names, slashes are one of / \\ |
+        self.wf = z3.RecFunction('wf', Cat, z3.BoolSort())
+        SLv = self.acc('Functor', 'slash')(c)
+        z3.RecAddDefinition(self.wf, [c], z3.If(self.recog('Atom')(c), z3.Length(self.acc('Atom', 'base')(c)) > 0,
+                            z3.And(z3.Or(SLv == z3.StringVal('/'), SLv == z3.StringVal('\\'), SLv == z3.StringVal('|')),
+                                   self.wf(L(c)), self.wf(R(c)))))
         # canonical text
         self.feat_str = z3.Function('feat_str', Feat, S)      # constrained per use by featstr_def
         self.str_spec = z3.RecFunction('str_spec', Cat, S)
@@ -278,13 +284,25 @@ class World:
         obligations are always discharged with the real definitions."""
         if not hasattr(self, '_twins'):
             self._twins = []
-            for f in (self.strip, self.erase, self.subst, self.nleaves, self.leaf, self.size, self.hasfeat, self.nargs, self.str_spec):
+            for f in (self.strip, self.erase, self.subst, self.nleaves, self.leaf, self.size, self.hasfeat, self.nargs, self.str_spec, self.wf):
                 dom = [f.domain(i) for i in range(f.arity())]
                 g = z3.Function(f.name() + '_opaque', *dom, f.range())
                 self._twins.append((f, g(*[z3.Var(i, d) for i, d in enumerate(dom)])))
         if not z3.is_expr(e):
             return e
         return z3.substitute_funs(e, *self._twins)
+
+    def canon_text(self, t):
+        """canonical text of a ground value given as nested tuples (python twin of str_spec)"""
+        if t[0] == 'Atom':
+            f = t[2]
+            if f[0] == 'UnaryFeature':
+                ft = '' if f[1][0] == 'NoneS' else f[1][1]
+            else:
+                ft = f'{f[1]}={f[2]},{f[3]}={f[4]},{f[5]}={f[6]}'
+            return t[1] if ft == '' else f'{t[1]}[{ft}]'
+        op = lambda x: self.canon_text(x) if x[0] == 'Atom' else '(' + self.canon_text(x) + ')'
+        return op(t[1]) + t[2] + op(t[3])
 
     # ---- python <-> z3 for concrete values (replay, concrete folding) ---
     def to_py(self, term):
